@@ -7,6 +7,7 @@ import DiskfsModel.Model.Sqfs.Reader
 import DiskfsModel.Model.Sqfs.Regions
 import DiskfsModel.Model.Sqfs.Inode
 import DiskfsModel.Model.Sqfs.Walk
+import DiskfsModel.Model.Sqfs.ImageRd
 namespace Driver.Sqfs
 open Diskfs Diskfs.Sqfs Driver
 
@@ -219,6 +220,76 @@ def walkP (args : List String) : String :=
       let sorted := rows.foldr (insertBy fun (a b : String × String) => a.1 < b.1) []
       s!"n={l.length}\tv={";".intercalate (sorted.map (·.2))}"
 
+/-! ### the reading side over image bytes (Model/Sqfs/ImageRd.lean) -/
+
+/-- the image file as a device, byte 0 = `base` (bytes beyond the file read as zero) -/
+def devOf (img : ByteArray) (base : Nat) : Dev := fun i => if base + i < img.size then img.get! (base + i) else 0
+
+def triples (s : String) : List (Nat × Nat × Nat) :=
+  if s == "-" || s == "" then [] else (s.splitOn ",").filterMap fun p =>
+    match p.splitOn ":" with
+    | [a, b, c] => some (a.toNat!, b.toNat!, c.toNat!)
+    | _ => none
+
+def loadImg (args : List String) : IO (Option Dev) := do
+  let some path := arg args "path" | return none
+  let img ← IO.FS.readBinFile path
+  return some (devOf img (argNatD args "base"))
+
+/-- sqfs.readmeta path= base= first= reqs=blk:off:size,… → per request len:crc of what `readMetadata` returns, or err -/
+def readMetaOp (args : List String) : IO String := do
+  let some dev ← loadImg args | return "err=nopath"
+  let first := argNatD args "first"
+  let outs := (triples ((arg args "reqs").getD "-")).map fun (blk, off, size) =>
+    match readMetadata idCodec dev first blk off size with
+    | none => "err"
+    | some b => s!"{b.length}:{crc32 b}"
+  return "r=" ++ ",".intercalate outs
+
+/-- sqfs.getinode path= base= tbl= bs= refs=blk:off:typ,… → per reference the CRC of the fields `getInodeM` decodes, or err -/
+def getInodeOp (args : List String) : IO String := do
+  let some dev ← loadImg args | return "err=nopath"
+  let tbl := argNatD args "tbl"
+  let bs := argNatD args "bs" 4096
+  let outs := (triples ((arg args "refs").getD "-")).map fun (blk, off, typ) =>
+    match getInodeM idCodec dev tbl bs blk off typ with
+    | none => "err"
+    | some i => toString (crc32 (inodeStr i).toUTF8.toList)
+  return "r=" ++ ",".intercalate outs
+
+/-- sqfs.getdir path= base= tbl= refs=blk:off:size,… → per reference the CRC of the listing `getDirM` decodes, or err -/
+def getDirOp (args : List String) : IO String := do
+  let some dev ← loadImg args | return "err=nopath"
+  let tbl := argNatD args "tbl"
+  let outs := (triples ((arg args "refs").getD "-")).map fun (blk, off, size) =>
+    match getDirM idCodec dev tbl blk off size with
+    | none => "err"
+    | some l => toString (crc32 (dentsStr l).toUTF8.toList)
+  return "r=" ++ ",".intercalate outs
+
+/-- sqfs.imgrd path= base= → what `openImage` + `imgWalk` report: block size, root inode number, fragment and id
+    tables, and per entry path, kind, (size, CRC of the bytes | target), owner ids, inode number; sorted by path -/
+def imgRdOp (args : List String) : IO String := do
+  let some dev ← loadImg args | return "err=nopath"
+  match openImage idCodec dev with
+  | none => return "err=open"
+  | some (sb, o, root) =>
+    match imgWalk idCodec dev o 64 [] root with
+    | none => return "err=walk"
+    | some l =>
+      let rows := l.map fun (e : Diskfs.Sqfs.ImgEnt) =>
+        let ps := "/".intercalate (e.path.map strOf)
+        let tail := s!"{e.uid}|{e.gid}|{e.ino.hdr.index}"
+        (ps, match e.ino.body with
+          | .basicDir .. => s!"{ps}|d|{tail}"
+          | .extDir .. => s!"{ps}|d|{tail}"
+          | .basicSymlink _ t => s!"{ps}|l|{strOf t}|{tail}"
+          | _ => s!"{ps}|f|{e.data.length}|{crc32 e.data}|{tail}")
+      let sorted := rows.foldr (insertBy fun (a b : String × String) => a.1 < b.1) []
+      let frs := if o.frags.isEmpty then "-" else
+        ";".intercalate (o.frags.map fun f => s!"{f.start}:{f.size}:{if f.compressed then 1 else 0}")
+      return s!"bs={sb.blocksize}\troot={root.hdr.index}\tfrags={frs}\tids={natsStr o.ids}\tn={l.length}\tv={";".intercalate (sorted.map (·.2))}"
+
 end Driver.Sqfs
 
 partial def loop (h : IO.FS.Stream) (out : IO.FS.Stream) : IO Unit := do
@@ -242,6 +313,10 @@ partial def loop (h : IO.FS.Stream) (out : IO.FS.Stream) : IO Unit := do
       | "sqfs.dirparse" => pure (Driver.Sqfs.dirDec args)
       | "sqfs.inodetable" => pure (Driver.Sqfs.inodeTable args)
       | "sqfs.walkp" => pure (Driver.Sqfs.walkP args)
+      | "sqfs.readmeta" => Driver.Sqfs.readMetaOp args
+      | "sqfs.getinode" => Driver.Sqfs.getInodeOp args
+      | "sqfs.getdir" => Driver.Sqfs.getDirOp args
+      | "sqfs.imgrd" => Driver.Sqfs.imgRdOp args
       | _ => pure "unknown-op"
     out.putStrLn s!"model\t{id}\t{r}"
   | _ => pure ()
